@@ -25,7 +25,8 @@ import (
 )
 
 type params struct {
-	Scen string // ev1 ev2 ev3 ev4 ev5
+	Scen string // ev1 ev2 ev3 ev4 ev5 ev6 ev7
+	Slow bool   // the consumer is away for 1.2 s before it starts receiving
 }
 
 // piece of a script
@@ -178,6 +179,14 @@ func (e *exec) Body() {
 		ss := &sx.SerialScript{Conns: []*vnet.FakeConn{{Name: "probe"}, e.conns[0], e.conns[1]}}
 		ss.Install()
 		n.Endpoints = []gomavlib.EndpointConf{gomavlib.EndpointSerial{Device: "/dev/ttyFAKE", Baud: 57600}}
+	case "ev7":
+		// the transport's write side fails once while its read side keeps working: frames
+		// arriving afterwards must still be delivered exactly once, on a live channel
+		e.scripts = []*chanScript{script("short", 21)}
+		e.scripts[0].endErr = nil
+		c := &vnet.FakeConn{Name: "A", WriteFailAt: 1, WriteErr: errors.New("injected write failure")}
+		e.conns = []*vnet.FakeConn{c}
+		n.Endpoints = []gomavlib.EndpointConf{gomavlib.EndpointCustom{ReadWriteCloser: c}}
 	case "ev6":
 		// a burst of 90 frames arrives in one piece while the consumer is away for a second
 		e.scripts = []*chanScript{script("burst", 21)}
@@ -198,10 +207,14 @@ func (e *exec) Body() {
 	}
 	consumerDone := false
 	vmc.GoApp("consumer", func() {
-		if p.Scen == "ev6" {
-			// slow / bursty consumer: away for one second, then drains everything
-			vmc.AddWake(vmc.Epoch.Add(time.Second), "consumer-pause")
-			vmc.Await("consumer pause", func() bool { return vmc.NowNS() >= int64(time.Second) })
+		if p.Scen == "ev6" || p.Slow {
+			// slow / bursty consumer: away for a while, then drains everything
+			pause := time.Second
+			if p.Slow {
+				pause = 1200 * time.Millisecond
+			}
+			vmc.AddWake(vmc.Epoch.Add(pause), "consumer-pause")
+			vmc.Await("consumer pause", func() bool { return vmc.NowNS() >= int64(pause) })
 		}
 		e.log.Consume(n, -1, func(ev gomavlib.Event) {
 			var ch *gomavlib.Channel
@@ -233,6 +246,17 @@ func (e *exec) Body() {
 		})
 		consumerDone = true
 	})
+	if p.Scen == "ev7" {
+		vmc.GoApp("peer-and-writer", func() {
+			ps := e.scripts[0].pieces
+			e.conns[0].Feed(ps[0].b)
+			n.WriteMessageAll(hb(9)) //nolint  (this transport write fails)
+			vmc.AddWake(vmc.Epoch.Add(time.Second), "later")
+			vmc.Await("later", func() bool { return vmc.NowNS() >= int64(time.Second) })
+			e.conns[0].Feed(ps[1].b)
+			n.WriteMessageAll(hb(8)) //nolint
+		})
+	}
 	if p.Scen == "ev2" {
 		// concurrent application writes
 		vmc.GoApp("writer", func() {
@@ -422,8 +446,18 @@ func (e *exec) Outcome(r *vmc.Result) string { return fmt.Sprint(r.End, e.log.Ev
 
 func variants(thorough bool) []sx.Variant {
 	var out []sx.Variant
-	for _, s := range []string{"ev1", "ev2", "ev3", "ev4", "ev5", "ev6"} {
-		p := params{Scen: s}
+	type sv struct {
+		s    string
+		slow bool
+	}
+	var svs []sv
+	for _, s := range []string{"ev1", "ev2", "ev3", "ev4", "ev5", "ev6", "ev7"} {
+		svs = append(svs, sv{s, false})
+	}
+	svs = append(svs, sv{"ev1", true}, sv{"ev4", true}, sv{"ev3", true})
+	for _, x := range svs {
+		s := x.s
+		p := params{Scen: s, Slow: x.slow}
 		bound := 2
 		if thorough {
 			bound = 3
@@ -431,8 +465,12 @@ func variants(thorough bool) []sx.Variant {
 		if s == "ev6" {
 			bound-- // long executions (90 frames)
 		}
+		name := s
+		if x.slow {
+			name += "/slow"
+		}
 		out = append(out, sx.Variant{
-			Name: s, Class: "events", MaxSteps: 20000, MaxTime: 10 * time.Minute, Bound: bound, Shards: 8,
+			Name: name, Class: "events", MaxSteps: 20000, MaxTime: 10 * time.Minute, Bound: bound, Shards: 8,
 			New: func() sx.Exec { return &exec{p: p} },
 		})
 	}
